@@ -1,6 +1,7 @@
 import RustCcModel.Proofs.CtlSimp
 import RustCcModel.Proofs.BytesInv
 import RustCcModel.Proofs.LifeHist
+import RustCcModel.Proofs.LifeOwned
 /-! # C03 — each value is dropped at most once; each allocation is freed exactly once
 
 Step-level facts about the three places that release a box (`Cc::drop` of the last owner, the free loop
@@ -131,6 +132,25 @@ half-alive. -/
 theorem half_dead_is_owned (c : Cfg) (nH nW nK : Nat) (w : World) (h : ReachableR c nH nW nK w) (x : Id)
     (hb : (w.heap x).boxLive = true) (hv : (w.heap x).valLive = false) : x ∈ ownedDead w.stack :=
   (reachableR_life c nH nW nK w h).np x (by simp [Obj.lv, hb, hv])
+
+/-- **A box is released only after its value is gone** — dropped, moved out by `try_unwrap`, or never built (`new_cyclic`
+whose closure has not returned): in every world of a panic-free history a released box holds no live value … -/
+theorem released_box_has_no_live_value (c : Cfg) (nH nW nK : Nat) (w : World) (h : ReachableR c nH nW nK w) (x : Id)
+    (hb : (w.heap x).boxLive = false) : (w.heap x).valLive = false :=
+  reachableR_freedDead c nH nW nK w h x hb
+
+/-- … in particular right after the step that emits `free x`. -/
+theorem free_only_after_value_gone (c : Cfg) (nH nW nK : Nat) (w : World) (h : ReachableR c nH nW nK w) (hm : w.mode = .running)
+    (x : Id) (hx : Event.free x ∈ newEvents w (step c w)) : ((step c w).heap x).valLive = false := by
+  have hfree := free_only_when_live c nH nW nK w h.reachable x hx
+  exact released_box_has_no_live_value c nH nW nK (step c w) (.step w h hm) x hfree.2.1
+
+/-- What a frame owns as "dead" (the box a `Cc::drop` is destroying, the box `new_cyclic` is building, the members of a
+`deallocate_list` already handed to their destructor) really has no live value — unless its `drop_in_place` is the very next
+thing to run. -/
+theorem owned_is_dead (c : Cfg) (nH nW nK : Nat) (w : World) (h : ReachableR c nH nW nK w) (x : Id) (hx : x ∈ ownedDead w.stack) :
+    (w.heap x).valLive = false ∨ w.stack.head? = some (.dropValue x) :=
+  reachableR_owned c nH nW nK w h x hx
 
 /-- Non-vacuity: a panic-free program that builds a cycle, drops the handles and collects has such a history, and its log
 contains `drop` events. -/
